@@ -194,6 +194,7 @@ def register_cache(reg, stubs, world):
         m1 = V.m(eng.val(s1, cache))
         e1 = z3.Select(m1, f)
         em1 = V.m(eng.val(s1, e1))
+        kq = z3.String('rcq!k')
         return [('returns-a-pair', z3.And(V.is_tuple(r), z3.Length(V.titems(r)) == 2)),
                 ('a-missing-file-reports-reloaded-with-an-empty-mapping', z3.Implies(z3.Not(fs_exists(f)), z3.And(
                     reloaded == TRUE, V.is_obj(data), V.is_dict(eng.val(s1, data)),
@@ -213,7 +214,14 @@ def register_cache(reg, stubs, world):
                 ('otherwise-serves-the-cached-text-untouched', z3.Implies(
                     z3.And(fs_exists(f), reloaded != TRUE),
                     z3.And(reloaded == FALSE, z3.Not(reload_), data == z3.Select(em0, z3.StringVal('data')), e1 == e0,
-                           eng.val(s1, e1) == eng.val(st, e0))))]
+                           eng.val(s1, e1) == eng.val(st, e0)))),
+                ('the-cache-stays-well-formed', cache_ok(eng, s1, cache)),
+                ('only-the-entry-for-the-file-changes', z3.Or(m1 == m0, m1 == z3.Store(m0, f, e1))),
+                ('the-entry-is-dropped-kept-or-a-fresh-dict', z3.Or(e1 == ABSENT, z3.And(e0 != ABSENT, e1 == e0),
+                                                                    z3.And(V.ref(e1) >= st.ap, V.ref(e1) < s1.ap))),
+                ('entries-lie-below-the-allocation-pointer', qforall([kq], z3.Implies(z3.Select(m1, kq) != ABSENT,
+                                                                                       V.ref(z3.Select(m1, kq)) < s1.ap),
+                                                                     patterns=[z3.Select(m1, kq)]))]
     def rc_frame(cx, f, old, new):
         # of the objects that existed before, only the cache dict and its entry for this file are written
         eng, st = cx.eng, cx.st0
@@ -235,8 +243,10 @@ def register_cache(reg, stubs, world):
                          'cached mtime; a missing file is reported as reloaded with an empty mapping'))
 
     def dc_pre(cx):
+        from specs.wf import fp
         return [('cache-is-a-dict-object', z3.And(V.is_obj(cx['cache']), clsof(V.ref(cx['cache'])) == cx.eng.cid('dict'),
                                                  V.is_dict(cx.eng.val(cx.st0, cx['cache'])))),
+                ('the-cache-is-not-part-of-a-check-tree-or-rule-store', z3.Not(fp(V.ref(cx['cache'])))),
                 ('filename-is-a-string', V.is_str(cx['filename']))]
 
     def dc_post(cx, out):
@@ -251,7 +261,7 @@ def register_cache(reg, stubs, world):
         r = z3.Int('oc!r')
         return [qforall([r], z3.Implies(r != V.ref(cx['cache']), z3.Select(new, r) == z3.Select(old, r)), patterns=[z3.Select(new, r)])]
     reg.add(Contract('_cache_handler:delete_cached_file', pre=dc_pre, post=dc_post, modifies=('$val',),
-                     frame=only_cache, props=('C10',)))
+                     frame=only_cache, preserves=('wf_tree', 'tree_height', 'pr', 'wf_eval'), props=('C10',)))
 
     # ------------------------------------------------------------------ _is_directory_updated (C10)
     from specs.external import fs_isdir, fs_listdir, pjoin
@@ -381,7 +391,7 @@ def register_chain(reg, stubs, world):
         return [qforall([r], z3.Implies(r < cx.st0.ap, z3.Select(new, r) == z3.Select(old, r)), patterns=[z3.Select(new, r)])]
     reg.add(Contract('_parser:parse_rule', post=pr_post, allocates=True, trusted=True,
                      modifies=('rules', 'rule', 'kind', 'match', '$val'), frame=fresh_only_frame,
-                     preserves=('wf_tree', 'wf_eval', 'pr'),
+                     preserves=('wf_tree', 'wf_eval', 'pr', 'tree_height'),
                      assumptions=('ASSUMED (property C02, decided there by the reducer/_parse_check/result contracts and the '
                                   'bounded language stand-in, not composed deductively): parse_rule returns, for every value, a '
                                   'fresh well-formed tree of built-in checks and raises nothing',),
@@ -426,11 +436,13 @@ def register_chain(reg, stubs, world):
         F = z3.Select(st.H('file_rules'), V.ref(s))
         G = z3.Select(st.H('registered_rules'), V.ref(s))
         return [('enforcer-object', z3.And(V.is_obj(s), eng.isinst_ref(V.ref(s), 'Enforcer'))),
+                ('the-enforcer-is-not-part-of-a-check-tree', z3.Not(fp(V.ref(s)))),
                 ('file-rules-record-is-a-dict-object', z3.And(V.is_obj(F), clsof(V.ref(F)) == eng.cid('dict'),
                                                               V.is_dict(z3.Select(st.H('$val'), V.ref(F))))),
                 ('registry-holds-rule-defaults', registry_ok(eng, st, s)),
                 ('record-and-registry-are-different-objects', V.ref(F) != V.ref(G)),
                 ('the-record-is-not-part-of-a-check-tree-or-rule-store', z3.Not(fp(V.ref(F)))),
+                ('the-record-holds-rule-defaults', file_rules_ok(eng, st, s)),
                 ('data-is-text', V.is_str(cx['data'])),
                 ('rule-values-in-the-file-are-strings', all_text(V.s(cx['data']))),
                 ('overwrite-is-a-boolean', V.is_bool(cx['overwrite']))]
@@ -458,7 +470,8 @@ def register_chain(reg, stubs, world):
                 ('rule-store-and-registry-untouched', z3.And(
                     eng.get(s1, s, 'rules') == eng.get(st, s, 'rules'),
                     eng.get(s1, s, 'registered_rules') == eng.get(st, s, 'registered_rules'),
-                    eng.val(s1, eng.get(st, s, 'registered_rules')) == eng.val(st, eng.get(st, s, 'registered_rules'))))]
+                    eng.val(s1, eng.get(st, s, 'registered_rules')) == eng.val(st, eng.get(st, s, 'registered_rules')))),
+                ('the-record-still-holds-rule-defaults', file_rules_ok(eng, s1, s))]
 
     def rfr_inv(L):
         eng, st, s = L.eng, L.st, L.cx['self']
@@ -486,6 +499,7 @@ def register_chain(reg, stubs, world):
                                                       V.ref(F1) != V.ref(eng.get(L.cx.st0, s, 'registered_rules')))),
                 ('registry-still-holds-rule-defaults', registry_ok(eng, st, s)),
                 ('registered-objects-existed-before', registry_old(eng, st, s, L.cx.st0.ap)),
+                ('the-record-holds-rule-defaults', file_rules_ok(eng, st, s)),
                 ('visited-names-recorded', qforall([j], z3.Implies(z3.And(j >= 0, j < L.i), z3.And(
                     z3.Select(m1, K[j]) != ABSENT, V.is_obj(z3.Select(m1, K[j])), V.ref(z3.Select(m1, K[j])) >= L.cx.st0.ap,
                     V.ref(z3.Select(m1, K[j])) < st.ap,
@@ -509,7 +523,7 @@ def register_chain(reg, stubs, world):
             return [qforall([r], z3.Implies(z3.And(r < cx.st0.ap, r != V.ref(F0)), z3.Select(new, r) == z3.Select(old, r)), patterns=[z3.Select(new, r)])]
         return [qforall([r], z3.Implies(r < cx.st0.ap, z3.Select(new, r) == z3.Select(old, r)), patterns=[z3.Select(new, r)])]
     reg.add(Contract('policy:Enforcer._record_file_rules', pre=rfr_pre, post=rfr_post, raises=('ValueError',),
-                     modifies=RFR_MODS, frame=rfr_frame, allocates=True,
+                     modifies=RFR_MODS, frame=rfr_frame, allocates=True, preserves=('wf_tree', 'tree_height', 'pr'),
                      loops={1: LoopSpec(rfr_inv, havoc=RFR_MODS, fresh_only=False)},
                      heap_axioms=tree_axioms, props=('C11', 'C12'),
                      doc='the record of file-defined rules that _handle_deprecated_rule consults: rebuilt (overwrite) or '
@@ -583,6 +597,12 @@ def register_chain2(reg, stubs, world):
         e = z3.Select(gm, k)
         return qforall([k], z3.Implies(e != ABSENT, rule_obj_ok(eng, st, e, 'RuleDefault')), patterns=[e])
 
+    def store_wf(eng, st, R):
+        m = V.m(z3.Select(st.H('$val'), V.ref(R)))
+        k = z3.String('sw!k')
+        e = z3.Select(m, k)
+        return qforall([k], z3.Implies(e != ABSENT, wf_tree(e)), patterns=[e])
+
     def lpf_terms(cx):
         eng, st, s = cx.eng, cx.st0, cx['self']
         g = lambda f: z3.Select(st.H(f), V.ref(s))
@@ -596,6 +616,7 @@ def register_chain2(reg, stubs, world):
         e = z3.Select(cm, k)
         dr = z3.Select(st.H('default_rule'), V.ref(s))
         return [('enforcer-object', z3.And(V.is_obj(s), eng.isinst_ref(V.ref(s), 'Enforcer'))),
+                ('enforcer-and-rule-store-are-not-part-of-a-check-tree', z3.And(z3.Not(fp(V.ref(s))), z3.Not(fp(V.ref(R))))),
                 ('rule-store-is-a-Rules-object', z3.And(V.is_obj(R), clsof(V.ref(R)) == eng.cid('Rules'),
                                                        V.is_dict(z3.Select(st.H('$val'), V.ref(R))))),
                 ('file-record-and-registry-are-dict-objects', z3.And(
@@ -603,13 +624,16 @@ def register_chain2(reg, stubs, world):
                     V.is_obj(G), clsof(V.ref(G)) == eng.cid('dict'), V.is_dict(z3.Select(st.H('$val'), V.ref(G))),
                     V.ref(F) != V.ref(G))),
                 ('registry-holds-rule-defaults', registry_ok2(eng, st, G)),
+                ('the-record-holds-rule-defaults', registry_ok2(eng, st, F)),
+                ('the-rule-store-holds-well-formed-checks', store_wf(eng, st, R)),
                 ('the-record-is-not-part-of-a-check-tree-or-rule-store', z3.Not(fp(V.ref(F)))),
                 ('file-cache-holds-well-formed-entries', cache_ok(eng, st, C)),
                 ('the-cache-is-not-part-of-a-check-tree-or-rule-store', z3.And(
                     z3.Not(fp(V.ref(C))), qforall([k], z3.Implies(e != ABSENT, z3.Not(fp(V.ref(e)))), patterns=[e]))),
                 ('the-cache-shares-no-object-with-the-stores', z3.And(
-                    V.ref(C) != V.ref(F), V.ref(C) != V.ref(G),
-                    qforall([k], z3.Implies(e != ABSENT, z3.And(V.ref(e) != V.ref(F), V.ref(e) != V.ref(G))), patterns=[e]))),
+                    V.ref(C) != V.ref(F), V.ref(C) != V.ref(G), V.ref(C) != V.ref(R),
+                    qforall([k], z3.Implies(e != ABSENT, z3.And(V.ref(e) != V.ref(F), V.ref(e) != V.ref(G), V.ref(e) != V.ref(R))),
+                            patterns=[e]))),
                 ('default-rule-is-None-a-string-or-a-check', z3.Or(dr == NONE, V.is_str(dr), eng.isinst(dr, 'BaseCheck'))),
                 ('arguments', z3.And(V.is_str(cx['path']), V.is_bool(cx['force_reload']), V.is_bool(cx['overwrite'])))]
 
@@ -681,13 +705,42 @@ def register_chain2(reg, stubs, world):
                 ('the-text-applied-is-current-whenever-a-re-read-was-due',
                  z3.Implies(z3.And(fs_exists(p), must_reread), text_after == fs_content(p))),
                 ('registry-untouched', z3.And(eng.get(s1, s, 'registered_rules') == G0,
-                                              eng.val(s1, G0) == eng.val(st, G0)))]
+                                              eng.val(s1, G0) == eng.val(st, G0))),
+                ('the-rule-store-stays-a-Rules-object', z3.And(V.is_obj(R1), clsof(V.ref(R1)) == eng.cid('Rules'), V.is_dict(eng.val(s1, R1)))),
+                ('the-rule-store-still-holds-well-formed-checks', store_wf(eng, s1, R1)),
+                ('the-record-stays-a-dict-object-outside-the-trees', z3.And(
+                    V.is_obj(F1), clsof(V.ref(F1)) == eng.cid('dict'), V.is_dict(eng.val(s1, F1)), z3.Not(fp(V.ref(F1))))),
+                ('the-record-still-holds-rule-defaults', registry_ok2(eng, s1, F1)),
+                ('the-registry-still-holds-rule-defaults', registry_ok2(eng, s1, G0)),
+                ('the-cache-object-stays', z3.And(eng.get(s1, s, '_file_cache') == C, V.ref(C) != V.ref(F1))),
+                ('the-cache-stays-well-formed', cache_ok(eng, s1, C)),
+                ('the-cache-entries-stay-apart-from-the-stores',
+                    qforall([k], z3.Implies(z3.Select(V.m(eng.val(s1, C)), k) != ABSENT, z3.And(
+                        z3.Not(fp(V.ref(z3.Select(V.m(eng.val(s1, C)), k)))),
+                        V.ref(z3.Select(V.m(eng.val(s1, C)), k)) != V.ref(F1),
+                        V.ref(z3.Select(V.m(eng.val(s1, C)), k)) != V.ref(G0))), patterns=[z3.Select(V.m(eng.val(s1, C)), k)])),
+                ('new-objects-lie-below-the-allocation-pointer', z3.And(V.ref(R1) < s1.ap, V.ref(F1) < s1.ap))]
+
+    def lpf_frame(cx, f, old, new):
+        # of the objects that existed before: four slots of the enforcer; the cache dict and its entry for this file; in
+        # update mode the contents of the rule store and of the record
+        eng, st, s, R0, F0, G0, C = lpf_terms(cx)
+        r = z3.Int('lpf!r')
+        if f in ('rules', 'file_rules', 'use_conf', '_need_check_rule'):
+            keep = z3.And(r < st.ap, r != V.ref(s))
+        elif f == '$val':
+            e0 = z3.Select(V.m(eng.val(st, C)), V.s(cx['path']))
+            keep = z3.And(r < st.ap, r != V.ref(C), z3.Or(e0 == ABSENT, r != V.ref(e0)), r != V.ref(R0), r != V.ref(F0))
+        else:
+            keep = r < st.ap
+        return [qforall([r], z3.Implies(keep, z3.Select(new, r) == z3.Select(old, r)), patterns=[z3.Select(new, r)])]
     LPF_MODS = ('rules', 'file_rules', 'use_conf', '_need_check_rule', '$val', '_name', '_check_str', '_check', '_description',
                 '_deprecated_rule', '_deprecated_for_removal', '_deprecated_reason', '_deprecated_since', 'scope_types', 'rule',
                 'kind', 'match', 'default_rule')
     reg.add(Contract('policy:Enforcer._load_policy_file', pre=lpf_pre, post=lpf_post, axioms=lpf_axioms,
                      raises=('cfg.ConfigFilesPermissionDeniedError', 'ValueError'), modifies=LPF_MODS,
-                     frame=lambda cx, f, o, n: [], allocates=True, heap_axioms=tree_axioms, props=('C10', 'C20'),
+                     frame=lpf_frame, allocates=True, heap_axioms=tree_axioms, props=('C10', 'C20'),
+                     preserves=('wf_tree', 'tree_height', 'pr'),
                      assumptions=('rule values in policy files are strings (the list-of-lists form is outside the loader-chain '
                                   'contracts)',
                                   ),
